@@ -23,15 +23,31 @@ package compile
 // findTypeCycles look for invalid type reference cycles in the given
 // TypeSpec.
 func findTypeCycles(t TypeSpec) error {
-	return make(typeCycleFinder, 0).Visit(t)
+	return typeCycleFinder{seen: &seenTypes{clean: make(map[TypeSpec]struct{})}}.Visit(t)
 }
 
-type typeCycleFinder []TypeSpec
+// seenTypes is shared by all the typeCycleFinders of one search.
+type seenTypes struct {
+	// Types under which nothing refers back to a type of the chain that led
+	// to them: whatever chain leads to them again, the result is the same.
+	// Without this, a type that is referred to twice by every type above it
+	// (typedef map<B, B> A, typedef map<C, C> B, ...) is searched 2^depth
+	// times.
+	clean map[TypeSpec]struct{}
+
+	// Number of references back to a type of the chain found so far.
+	hits int
+}
+
+type typeCycleFinder struct {
+	chain []TypeSpec
+	seen  *seenTypes
+}
 
 // visited returns true if the given TypeSpec has already been visited.
 // Otherwise it returns false, and marks the TypeSpec as visited.
 func (f typeCycleFinder) visited(s TypeSpec) bool {
-	for _, t := range f {
+	for _, t := range f.chain {
 		if t == s {
 			return true
 		}
@@ -42,19 +58,20 @@ func (f typeCycleFinder) visited(s TypeSpec) bool {
 // cloneWithPart creates a copy of this typeCycleFinder with the given
 // TypeSpec added to the chain.
 func (f typeCycleFinder) cloneWithPart(s TypeSpec) typeCycleFinder {
-	newf := make(typeCycleFinder, 0, len(f)+1)
-	newf = append(newf, f...)
-	newf = append(newf, s)
-	return newf
+	chain := make([]TypeSpec, 0, len(f.chain)+1)
+	chain = append(chain, f.chain...)
+	chain = append(chain, s)
+	return typeCycleFinder{chain: chain, seen: f.seen}
 }
 
 func (f typeCycleFinder) Visit(s TypeSpec) error {
 	_, isTypedef := s.(*TypedefSpec)
 
 	if f.visited(s) {
+		f.seen.hits++
 		// cycles are errors only for typedefs
 		if isTypedef {
-			return typeReferenceCycleError{Nodes: append(f, s)}
+			return typeReferenceCycleError{Nodes: append(f.chain, s)}
 		}
 		return nil
 	}
@@ -65,5 +82,14 @@ func (f typeCycleFinder) Visit(s TypeSpec) error {
 		return nil
 	}
 
-	return s.ForEachTypeReference(f.cloneWithPart(s).Visit)
+	if _, ok := f.seen.clean[s]; ok {
+		return nil
+	}
+
+	hits := f.seen.hits
+	err := s.ForEachTypeReference(f.cloneWithPart(s).Visit)
+	if err == nil && f.seen.hits == hits {
+		f.seen.clean[s] = struct{}{}
+	}
+	return err
 }
